@@ -1,6 +1,7 @@
 """Typed statement/expression trees as exported by bin/econf-facts, with the helpers the
 rules share: stripping of parentheses/implicit casts, canonical rendering of expressions,
 tree walks, call collection."""
+import os
 
 TRANSPARENT = ("ParenExpr", "ImplicitCastExpr", "ConstantExpr", "GenericSelectionExpr")
 CASTS = ("CStyleCastExpr",)
@@ -392,7 +393,10 @@ class Function:
                 if not ct.endswith("*"):
                     continue
                 if ct in ("char *", "const char *", "void *", "const void *"):
-                    continue        # string cursors are values, not names for an object
+                    # string cursors are values, not names for an object - except a local that is set once, in its declaration, to a
+                    # string FIELD and never moved: `const char *value = kf->file_entry[i].value;` is a short name for the field
+                    if not (ct in ("char *", "const char *") and decl is not None and r.k == "MemberExpr" and os.environ.get("VERIF_NO_FIELD_ALIAS") is None):
+                        continue
                 pure = True
                 for x in r.walk():
                     if x.k in ("CallExpr", "CompoundAssignOperator", "StmtExpr", "ConditionalOperator") or \
